@@ -6,4 +6,6 @@ RefSpec == Ref!Spec
 \* the last observation is not read by any action: it need not distinguish states
 SnapView == IF "obs" \in DOMAIN snap THEN [snap EXCEPT !.obs = 0] ELSE snap
 FullView == <<nalloc, nodes, H, E, armed, rc, EB, MB, gc, SnapView, ist>>
+\* the sanity invariants of the reference, on the abstraction of the implementation state
+RefInv == Ref!TypeOK /\ Ref!NoDangling /\ Ref!WeakSound /\ Ref!EphSound /\ Ref!NestSound
 =============================================================================
